@@ -680,6 +680,9 @@ func (in *callInliner) rewriteStmt(st ast.Stmt, depth int, active map[*ast.FuncD
 		c.Body = in.rewriteBlock(t.Body, depth, active)
 		return []ast.Stmt{&c}
 	case *ast.RangeStmt:
+		if out := in.unrollLiteralRange(t, depth, active); out != nil {
+			return out
+		}
 		c := *t
 		c.Body = in.rewriteBlock(t.Body, depth, active)
 		return []ast.Stmt{&c}
@@ -804,4 +807,53 @@ func isFieldPath(info *types.Info, e ast.Expr) bool {
 		return isFieldPath(info, x)
 	}
 	return false
+}
+
+// unrollLiteralRange: `for _, x := range []T{a, b} { body }` is the statements of body once with x = a and once with
+// x = b. Only loops whose body neither breaks nor continues nor returns, and whose elements are plain names or field
+// paths, are unrolled; anything else stays a loop.
+func (in *callInliner) unrollLiteralRange(t *ast.RangeStmt, depth int, active map[*ast.FuncDecl]bool) []ast.Stmt {
+	info := in.p.TypesInfo
+	lit, ok := ast.Unparen(t.X).(*ast.CompositeLit)
+	if !ok || len(lit.Elts) == 0 || len(lit.Elts) > 8 || t.Tok != token.DEFINE {
+		return nil
+	}
+	if k, isId := t.Key.(*ast.Ident); t.Key != nil && (!isId || k.Name != "_") {
+		return nil
+	}
+	val, ok := t.Value.(*ast.Ident)
+	if !ok || info.Defs[val] == nil {
+		return nil
+	}
+	for _, el := range lit.Elts {
+		switch e := ast.Unparen(el).(type) {
+		case *ast.Ident:
+		case *ast.SelectorExpr:
+			if !isFieldPath(info, e) {
+				return nil
+			}
+		default:
+			return nil
+		}
+	}
+	leaves := false
+	ast.Inspect(t.Body, func(n ast.Node) bool {
+		switch n.(type) {
+		case *ast.BranchStmt, *ast.ReturnStmt:
+			leaves = true
+		case *ast.FuncLit:
+			return false
+		}
+		return !leaves
+	})
+	if leaves {
+		return nil
+	}
+	var out []ast.Stmt
+	for _, el := range lit.Elts {
+		cl := newASTCloner(info, map[types.Object]ast.Expr{info.Defs[val]: el})
+		body := cl.Stmts(t.Body.List)
+		out = append(out, &ast.BlockStmt{Lbrace: t.Body.Lbrace, List: in.rewriteList(body, depth, active), Rbrace: t.Body.Rbrace})
+	}
+	return out
 }
